@@ -40,3 +40,24 @@ Qed.
 (* each word the decoder reads names only numbers in its window, unless it wraps past 65535 *)
 Example window_example : in_window 65519 65535 /\ ~ in_window 65530 0.
 Proof. unfold in_window. split; lia. Qed.
+
+(* The exclusion made formal: with windows that wrap past 65535 the statement above is false of the
+   encoder.  The decoder does read wrapping words (base.wrapping_add): the one word (65530, bit 5) decodes
+   to 65530 and 0, while the encoder, which walks the set in numeric order, writes two words for {0, 65530}.
+   The property speaks of strictly increasing (PID, BLP) words over an ascending set, so this is recorded
+   as the boundary of what is proved, not as a defect (DESIGN.md section 0). *)
+Definition in_window_wrap (p x : N) : Prop := exists d, (d <= 16)%N /\ x = ((p + d) mod 65536)%N.
+
+Theorem nack_minimal_with_wrapping_refuted :
+  exists (l : list N) (ws : list (N * N)),
+    asc l /\ (forall x, In x l -> exists w, In w ws /\ in_window_wrap (fst w) x) /\
+    length ws < length (rfc_nack_words (length l) l) /\
+    nack_words None 0%N l = rfc_nack_words (length l) l /\
+    nack_entries (concat (map (fun w => be16 (fst w) ++ be16 (snd w)) ws)) = Ok [65530%N; 0%N].
+Proof.
+  exists [0%N; 65530%N], [(65530%N, 32%N)]. split; [cbn; lia|]. split.
+  - intros x [<-|[<-|[]]]; exists (65530%N, 32%N); (split; [now left|]).
+    + exists 6%N. split; [lia|reflexivity].
+    + exists 0%N. split; [lia|reflexivity].
+  - split; [vm_compute; lia|]. split; vm_compute; reflexivity.
+Qed.
